@@ -14,10 +14,19 @@ package control
 // StorageEngine (three temp shards, two of them with a write-cache), a real placement.Service
 // and replicator.Replicator over recording container/netmap sources and a recording NodeState.
 //
-// Oracle (written from the statement, independent of sign.go): a request is *authorised* iff
+// Oracle (written from the statement, independent of sign.go and of the generated
+// StableMarshal/ReadSignedData code; the body bytes are the standard protobuf encoding of the
+// body field as the request carries it): a request is *authorised* iff
 // its signature field names a key that is byte-equal to the compressed encoding of one of the
 // administrator keys configured for the server it is sent to AND the signature verifies with
 // the Go standard library (ECDSA P-256 over SHA-512 of the body bytes) under that key.
+// "Its body" is what the request carries in its body field: the reference takes the bytes of that
+// field in the standard protobuf encoding (reflection-based google.golang.org/protobuf codec,
+// the one the gRPC transport uses), NOT the hand-generated StableMarshal / ReadSignedData code
+// of the repository, which is part of what is checked.  Besides whole-body substitutions, every
+// single field of the body message (enumerated from the message descriptor) is altered after an
+// administrator signed the body, and vice versa (signed with the field altered, sent as
+// generated).
 // Not authorised => error, no response / no streamed message, the world snapshot taken before
 // the call equals the one taken after it, and no mutating dependency call is recorded.
 // The snapshot is taken without the code under test: shard modes and error counters, every
@@ -87,6 +96,7 @@ import (
 	"google.golang.org/grpc"
 	"google.golang.org/grpc/metadata"
 	"google.golang.org/protobuf/proto"
+	"google.golang.org/protobuf/reflect/protoreflect"
 )
 
 // ---- independent crypto helpers (standard library only) ---------------------------------
@@ -803,12 +813,153 @@ const vf32AfterSuffix = "@after-accept"
 
 var vf32AfterModes = []string{"nosig", "wrongkey", "keysubst", "sigflip", "bodyswap", "bodyext", "crossempty", "strangerkey+adminsig", "sigzero"}
 
+// vf32BodyField is the body sub-message field of a request message (nil: the request type has none).
+func vf32BodyField(m vf32Msg) protoreflect.FieldDescriptor {
+	fd := m.ProtoReflect().Descriptor().Fields().ByName("body")
+	if fd == nil || fd.Message() == nil || fd.IsList() || fd.IsMap() {
+		return nil
+	}
+	return fd
+}
+
+// vf32Body returns the bytes of the body the request carries: the standard (deterministic)
+// protobuf encoding of its body field, produced by the reflection-based codec - independent of
+// the repository's generated StableMarshal/ReadSignedData, whose output is what the server
+// verifies signatures over and therefore belongs to the code under test.
 func vf32Body(m vf32Msg) []byte {
-	b, err := m.ReadSignedData(nil)
+	fd := vf32BodyField(m)
+	if fd == nil || !m.ProtoReflect().Has(fd) {
+		return nil
+	}
+	b, err := proto.MarshalOptions{Deterministic: true}.Marshal(m.ProtoReflect().Get(fd).Message().Interface())
 	if err != nil {
-		panic("vf32: ReadSignedData: " + err.Error())
+		panic("vf32: marshal body: " + err.Error())
 	}
 	return b
+}
+
+// vf32BodyFields names the fields of the request's body message (from the message descriptor, so
+// that a field added later is covered without touching the harness).
+func vf32BodyFields(m vf32Msg) []string {
+	fd := vf32BodyField(m)
+	if fd == nil {
+		return nil
+	}
+	var out []string
+	fs := fd.Message().Fields()
+	for i := 0; i < fs.Len(); i++ {
+		if !fs.Get(i).IsMap() {
+			out = append(out, string(fs.Get(i).Name()))
+		}
+	}
+	return out
+}
+
+// vf32Changed returns a value of the field's scalar kind that differs from cur.
+func vf32Changed(fd protoreflect.FieldDescriptor, cur protoreflect.Value, rng *rand.Rand) (protoreflect.Value, bool) {
+	switch fd.Kind() {
+	case protoreflect.BoolKind:
+		return protoreflect.ValueOfBool(!cur.Bool()), true
+	case protoreflect.EnumKind:
+		vals := fd.Enum().Values()
+		for i, o := 0, rng.IntN(vals.Len()); i < vals.Len(); i++ {
+			if n := vals.Get((i + o) % vals.Len()).Number(); n != cur.Enum() {
+				return protoreflect.ValueOfEnum(n), true
+			}
+		}
+		return protoreflect.ValueOfEnum(cur.Enum() + 1), true
+	case protoreflect.StringKind:
+		return protoreflect.ValueOfString(cur.String() + "~"), true
+	case protoreflect.BytesKind:
+		b := bytes.Clone(cur.Bytes())
+		if len(b) == 0 {
+			b = verifkit.RandBytes(rng, 8)
+		} else {
+			b[rng.IntN(len(b))] ^= 1 << rng.IntN(8)
+		}
+		return protoreflect.ValueOfBytes(b), true
+	case protoreflect.Int32Kind, protoreflect.Sint32Kind, protoreflect.Sfixed32Kind:
+		return protoreflect.ValueOfInt32(int32(cur.Int()) + 1), true
+	case protoreflect.Int64Kind, protoreflect.Sint64Kind, protoreflect.Sfixed64Kind:
+		return protoreflect.ValueOfInt64(cur.Int() + 1), true
+	case protoreflect.Uint32Kind, protoreflect.Fixed32Kind:
+		return protoreflect.ValueOfUint32(uint32(cur.Uint()) + 1), true
+	case protoreflect.Uint64Kind, protoreflect.Fixed64Kind:
+		return protoreflect.ValueOfUint64(cur.Uint() + 1), true
+	case protoreflect.FloatKind:
+		return protoreflect.ValueOfFloat32(float32(cur.Float()) + 1), true
+	case protoreflect.DoubleKind:
+		return protoreflect.ValueOfFloat64(cur.Float() + 1), true
+	}
+	return protoreflect.Value{}, false
+}
+
+// vf32Tamper changes exactly one field of the request's body in place (singular: another value /
+// set <-> unset; repeated: an element appended, altered or removed); ok=false when the carried
+// body bytes did not change.
+func vf32Tamper(m vf32Msg, field string, rng *rand.Rand) bool {
+	bf := vf32BodyField(m)
+	if bf == nil {
+		return false
+	}
+	before := vf32Body(m)
+	// work on a deep copy: the drivers' body constructors may share slices between the messages they return
+	m.ProtoReflect().Set(bf, protoreflect.ValueOfMessage(proto.Clone(m.ProtoReflect().Mutable(bf).Message().Interface()).ProtoReflect()))
+	body := m.ProtoReflect().Mutable(bf).Message()
+	fd := body.Descriptor().Fields().ByName(protoreflect.Name(field))
+	switch {
+	case fd == nil || fd.IsMap():
+		return false
+	case fd.IsList():
+		l := body.Mutable(fd).List()
+		isMsg := fd.Kind() == protoreflect.MessageKind || fd.Kind() == protoreflect.GroupKind
+		op := rng.IntN(3)
+		if l.Len() == 0 || (isMsg && op == 1) {
+			op = 0
+		}
+		switch op {
+		case 0: // one more element
+			if isMsg {
+				l.Append(l.NewElement())
+				break
+			}
+			cur := l.NewElement()
+			if l.Len() > 0 {
+				cur = l.Get(rng.IntN(l.Len()))
+			}
+			nv, ok := vf32Changed(fd, cur, rng)
+			if !ok {
+				return false
+			}
+			l.Append(nv)
+		case 1: // one element altered
+			i := rng.IntN(l.Len())
+			nv, ok := vf32Changed(fd, l.Get(i), rng)
+			if !ok {
+				return false
+			}
+			l.Set(i, nv)
+		case 2: // one element removed
+			i := rng.IntN(l.Len())
+			for ; i+1 < l.Len(); i++ {
+				l.Set(i, l.Get(i+1))
+			}
+			l.Truncate(l.Len() - 1)
+		}
+	case fd.Kind() == protoreflect.MessageKind || fd.Kind() == protoreflect.GroupKind:
+		if body.Has(fd) {
+			body.Clear(fd)
+		} else {
+			body.Mutable(fd)
+		}
+	default:
+		nv, ok := vf32Changed(fd, body.Get(fd), rng)
+		if !ok {
+			return false
+		}
+		body.Set(fd, nv)
+	}
+	return !bytes.Equal(before, vf32Body(m))
 }
 
 // vf32Forge builds the request of one credential mode; ok=false when the mode does not apply.
@@ -833,7 +984,33 @@ func vf32Forge(mode string, v vf32Variant, w *vf32World, rng *rand.Rand) (vf32Ms
 		}
 		return l
 	}
+	if f, ok := strings.CutPrefix(mode, "tamper:"); ok { // an administrator signs the body as generated; afterwards one field of it is changed
+		s := vf32Sign(admin, body)
+		if !vf32Tamper(m, f, rng) {
+			return nil, false
+		}
+		set(vf32Pub(admin), s)
+		return m, true
+	}
+	if f, ok := strings.CutPrefix(mode, "tamper-back:"); ok { // signed with one field different, sent as generated (the effective body)
+		t := v.mk()
+		if !vf32Tamper(t, f, rng) {
+			return nil, false
+		}
+		set(vf32Pub(admin), vf32Sign(admin, vf32Body(t)))
+		return m, true
+	}
 	switch mode {
+	case "replay-own-tamper": // the credential this body has just been accepted with, on the same body with one seeded field changed
+		fs := vf32BodyFields(m)
+		if len(fs) == 0 || len(w.accepted) == 0 {
+			return nil, false
+		}
+		c := w.accepted[len(w.accepted)-1]
+		if !bytes.Equal(c.body, body) || !vf32Tamper(m, fs[rng.IntN(len(fs))], rng) {
+			return nil, false
+		}
+		replay(c)
 	case "replay-first": // the very first credential the server accepted (the monitoring health check)
 		if len(w.accepted) == 0 || bytes.Equal(w.accepted[0].body, body) {
 			return nil, false
@@ -1050,7 +1227,7 @@ func vf32ErrClass(err error) string {
 func TestVerif_C32_Node(t *testing.T) {
 	r := verifkit.Start(t, "C32", "exploration")
 	defer r.Finish()
-	r.SetRule("storage-node control server: RPC inventory from the generated gRPC service descriptor (unary and streaming) + server interface (reflection); per round a fresh world (real engine, 3 temp shards, 2 with write-cache, ~15 objects; real placement service and replicator over recording sources; recording NodeState/HealthChecker) and a Server with 1-3 seeded administrator keys (sometimes plus non-key entries); every RPC (seeded order) x effective body variant x credential mode (no signature, empty signature, stranger key, admin key with stranger's signature, admin signature over another effective body / extended body / whole request / empty data, flipped / truncated / empty / zero signature, non-key list entry, valid signature by administrators of another server, server not yet ready, credential of an earlier authorised request of this server instance - first (a priming health check) / latest / random / the one this body was just accepted with - replayed on this or the alternative body, stateless modes repeated right after the body was accepted, correct) goes through the generated handler as wire bytes with a full world snapshot before and after; distinct = (RPC, body variant class, mode, number of admin keys); non-trivial = the same body was then executed under a correct signature and showed its effect")
+	r.SetRule("storage-node control server: RPC inventory from the generated gRPC service descriptor (unary and streaming) + server interface (reflection); per round a fresh world (real engine, 3 temp shards, 2 with write-cache, ~15 objects; real placement service and replicator over recording sources; recording NodeState/HealthChecker) and a Server with 1-3 seeded administrator keys (sometimes plus non-key entries); every RPC (seeded order) x effective body variant x credential mode (no signature, empty signature, stranger key, admin key with stranger's signature, admin signature over another effective body / extended body / whole request / empty data, flipped / truncated / empty / zero signature, non-key list entry, valid signature by administrators of another server, server not yet ready, credential of an earlier authorised request of this server instance - first (a priming health check) / latest / random / the one this body was just accepted with - replayed on this or the alternative body, stateless modes repeated right after the body was accepted, every single field of the body message (from its descriptor) changed after an administrator signed the body / the body sent as generated under a signature over the body with that field changed / the just accepted credential on the body with one field changed, correct) goes through the generated handler as wire bytes with a full world snapshot before and after; distinct = (RPC, body variant class, mode, number of admin keys); non-trivial = the same body was then executed under a correct signature and showed its effect")
 	r.Assume("the engine, placement service and replicator are real; container/netmap sources, NodeState and HealthChecker are recording fakes; the write-cache flush scheduler is parked at hook writecache.sched.handoff and the GC remover interval is 24h so that only requests change the world")
 	r.Assume("the node's own response-signing key is not used as a credential (cmd/neofs-node passes it as an authorised key by configuration)")
 
@@ -1095,6 +1272,9 @@ func TestVerif_C32_Node(t *testing.T) {
 	r.Count("node_wc_scheduler_parked", int(vf32Parked.Load()))
 	if r.Counter("node_authorised_effective") == 0 {
 		r.Inconclusive("no positive control showed an effect")
+	}
+	if r.Counter("node_single_field_tamper_calls") == 0 {
+		r.Inconclusive("no request with a single body field changed after/before signing was executed: the corrupted-body part of the check is vacuous")
 	}
 	if r.Counter("node_replayed_credential_calls_cross_rpc") == 0 || r.Counter("node_unauthorised_calls_right_after_accept_of_same_body") == 0 {
 		r.Inconclusive("no credential of an earlier authorised request was replayed on another RPC, or no unauthorised request followed the acceptance of its body: the history-dependent part of the check is vacuous")
@@ -1155,10 +1335,16 @@ func vf32Round(r *verifkit.Run, w *vf32World, inv []vf32RPC, rng *rand.Rand, rou
 		}
 		for _, v := range variants {
 			modes := append([]string(nil), vf32NegModes...)
+			// "valid key, corrupted body", field by field: every field of the body message is
+			// changed after signing (tamper) and before signing (tamper-back, the body as generated is sent)
+			for _, f := range vf32BodyFields(v.mk()) {
+				modes = append(modes, "tamper:"+f, "tamper-back:"+f)
+			}
 			rng.Shuffle(len(modes), func(i, j int) { modes[i], modes[j] = modes[j], modes[i] })
-			// positive control, then: its credential on the alternative body, and a seeded
-			// subset of the stateless modes again on the body that has just been accepted
-			modes = append(modes, "valid", "replay-own")
+			// positive control, then: its credential on the alternative body and on the same body
+			// with one field changed, and a seeded subset of the stateless modes again on the
+			// body that has just been accepted
+			modes = append(modes, "valid", "replay-own", "replay-own-tamper")
 			for _, i := range rng.Perm(len(vf32AfterModes))[:2] {
 				modes = append(modes, vf32AfterModes[i]+vf32AfterSuffix)
 			}
@@ -1191,6 +1377,12 @@ func vf32Round(r *verifkit.Run, w *vf32World, inv []vf32RPC, rng *rand.Rand, rou
 				if err != nil {
 					r.Inconclusive("harness: marshal request: " + err.Error())
 					continue
+				}
+				// observation only (no verdict): does the repository's signed-data serialisation of
+				// this request equal the body bytes it carries?
+				if sd, err := req.ReadSignedData(nil); err != nil || !bytes.Equal(sd, vf32Body(req)) {
+					r.Count("node_requests_whose_ReadSignedData_differs_from_carried_body", 1)
+					r.Seen("node_rpcs_whose_ReadSignedData_differs_from_carried_body", rpc.name)
 				}
 				if v.prepare != nil {
 					if err := v.prepare(); err != nil {
@@ -1294,6 +1486,12 @@ func vf32Round(r *verifkit.Run, w *vf32World, inv []vf32RPC, rng *rand.Rand, rou
 				}
 				if strings.HasSuffix(md, vf32AfterSuffix) {
 					r.Count("node_unauthorised_calls_right_after_accept_of_same_body", 1)
+				}
+				if strings.Contains(md, "tamper") {
+					r.Count("node_single_field_tamper_calls", 1)
+					if i := strings.IndexByte(md, ':'); i >= 0 && strings.HasPrefix(md, "tamper") {
+						r.Seen("node_body_fields_tampered", rpc.name+"."+md[i+1:])
+					}
 				}
 				if !bad {
 					r.Count("node_unauthorised_rejected_clean", 1)
